@@ -4,9 +4,8 @@
    Model: model/DecoderSM.v (src/iter.rs SurfaceIterator + src/decoder.rs Decoder operations, with every
    unwrap / debug_assert / unchecked u64 operation as a possible DPanic).  Spec: a cursor i over the
    flattened surface list (c_step), i.e. an index into C02's spec_flatten.
-   Proved for every texture, texture array, cube map, cube-map array and partial cube map (every layout
-   whose iterator is the TextureSurfaceIterator); volumes are covered by the correspondence check only
-   (C08_volume_partial below states what is missing). *)
+   Proved for every layout a header can yield: textures, arrays, cube maps, cube arrays, partial cube maps
+   (TextureSurfaceIterator, flat cursor index i) and volumes (VolumeSurfaceIterator, cursor (level, depth)). *)
 From DDSV Require Import base.Machine model.Layout model.DecoderSM spec.SpecLayout proofs.LayoutProofs proofs.DecoderProofs.
 
 (* For every header that yields a texture-like layout and EVERY operation sequence (unbounded length):
@@ -22,9 +21,16 @@ Theorem C08_decoder_refines_cursor : forall h p L ops,
   match L with
   | LTexture t => sim_run (t_p t) (t_w t) (t_h t) (t_mips t) 1 L (dec_init L) 0 ops
   | LArray a => sim_run (a_p a) (a_w a) (a_h a) (a_mips a) (a_len a) L (dec_init L) 0 ops
-  | LVolume _ => True
+  | LVolume v => vsim_run (vo_p v) (vo_w v) (vo_h v) (vo_d v) (vo_mips v) (dec_init L) (0, 0) ops
   end.
-Proof. exact decoder_refines_cursor_hdr. Qed.
+Proof. exact decoder_refines_cursor_all. Qed.
+
+(* volumes: the cursor is the pair (level, depth); vrel gives the reported surface and the reader position *)
+Theorem C08_vrel_observe : forall p w h d mips dd c, wf_pixel_info p -> 1 <= mips <= 255 ->
+  sum_vol p w h d 0 (N.to_nat mips) < U64 -> vrel p w h d mips dd c ->
+  iter_current (d_it dd) = Some (if fst c <? mips then Some (vinfo p w h (fst c)) else None) /\
+  d_pos dd = vpos p w h d (fst c) (snd c).
+Proof. intros p w h d mips dd c Hp Hm HT. apply vrel_observe; assumption. Qed.
 
 (* what rel means for the observer: reader position and reported surface are those of the cursor *)
 Theorem C08_rel_observe : forall p w h mips len Lay d i, wf_pixel_info p ->
@@ -60,11 +66,5 @@ Example C08_ex_cube :
     | _ => False end.
 Proof. eexists. split; [vm_compute; reflexivity|]. vm_compute. auto. Qed.
 
-(* volumes: stated, checked by differential execution only (exhaustive op sequences to depth 4/6) *)
-Definition C08_volume_partial_statement : Prop :=
-  forall h p v ops, wf_pixel_info p -> 1 <= lh_mips h -> from_header_with h p = LOk (LVolume v) ->
-  forall d, fold_left (fun d op => match fst (dec_step d op) with DOk d' => d' | DErr _ d' => d' | DPanic => d end) ops (dec_init (LVolume v)) = d ->
-  forall op, fst (dec_step d op) <> DPanic.
-
-Definition C08_all := (C08_decoder_refines_cursor, C08_rel_observe, C08_cursor_points_into_flatten, C08_read_all_consumes_data_section).
+Definition C08_all := (C08_decoder_refines_cursor, C08_vrel_observe, C08_rel_observe, C08_cursor_points_into_flatten, C08_read_all_consumes_data_section).
 Redirect "props/C08.assumptions" Print Assumptions C08_all.
